@@ -4,6 +4,7 @@ import (
 	"fmt"
 	"io"
 	"os"
+	"sync"
 )
 
 type fileDisk struct {
@@ -11,6 +12,9 @@ type fileDisk struct {
 	f         *os.File
 	parts     []*partDisk
 	finalSize uint64
+
+	// parts are read by HTTP handlers while the file is being finalized
+	mutex sync.RWMutex
 }
 
 func newFileDisk(fpath string) (File, error) {
@@ -27,6 +31,9 @@ func newFileDisk(fpath string) (File, error) {
 
 // Finalize implements File.
 func (s *fileDisk) Finalize() {
+	s.mutex.Lock()
+	defer s.mutex.Unlock()
+
 	if len(s.parts) > 0 {
 		// set size of last part
 		lastPart := s.parts[len(s.parts)-1]
@@ -52,6 +59,9 @@ func (s *fileDisk) Remove() {
 
 // NewPart implements File.
 func (s *fileDisk) NewPart() Part {
+	s.mutex.Lock()
+	defer s.mutex.Unlock()
+
 	// set size of last part and get offset
 	offset := uint64(0)
 	if len(s.parts) > 0 {
